@@ -34,6 +34,7 @@ import (
 	"verifharness/storelib"
 
 	coercion "github.com/element-of-surprise/coercion"
+	"github.com/element-of-surprise/coercion/plugins"
 	"github.com/element-of-surprise/coercion/workflow"
 	"github.com/element-of-surprise/coercion/workflow/storage/cosmosdb"
 	"github.com/google/uuid"
@@ -63,6 +64,32 @@ func maker(seed *core.Rand, size int, anyP float64) func() *workflow.Plan {
 
 // plant puts an unencodable value at action position k: in the request (through the Any plugin of the
 // action's kind, whose ValidateReq accepts it) or, if inAttempt, in the response of an attempt.
+// plantKind: "chan-req", "chan-att" (a channel behind an `any`), "utf8-req", "utf8-resp", "utf8-err" (a string that
+// is not valid UTF-8 in the request, in an attempt's response, in a wrapped error message of an attempt).
+func plantKind(p *workflow.Plan, k int, kind string, live bool) string {
+	ar := storelib.Actions(p)[k]
+	bad := storelib.InvalidUTF8[k%len(storelib.InvalidUTF8)]
+	switch kind {
+	case "chan-req":
+		return plant(p, k, false, live)
+	case "chan-att":
+		return plant(p, k, true, live)
+	case "utf8-req":
+		storelib.TaintReq(ar.A, bad)
+		return ar.Path + " (request string not valid UTF-8)"
+	case "utf8-resp":
+		ar.A.Attempts = append(ar.A.Attempts, &workflow.Attempt{Resp: storelib.TaintedResp(ar.A.Plugin, bad), Start: time.Unix(5, 5)})
+		return ar.Path + " (attempt response string not valid UTF-8)"
+	case "utf8-err":
+		ar.A.Attempts = append(ar.A.Attempts, &workflow.Attempt{Err: &plugins.Error{Code: 1, Message: "outer",
+			Wrapped: &plugins.Error{Code: 2, Message: "inner " + bad}}, Start: time.Unix(5, 5)})
+		return ar.Path + " (wrapped error message not valid UTF-8)"
+	}
+	panic("unknown plant kind " + kind)
+}
+
+var plantKinds = []string{"chan-req", "chan-att", "utf8-req", "utf8-resp", "utf8-err"}
+
 func plant(p *workflow.Plan, k int, inAttempt bool, live bool) string {
 	ar := storelib.Actions(p)[k]
 	var bad any = storelib.Unencodable{}
@@ -120,7 +147,8 @@ func famPlant(e *env, root *core.Rand, nPlans int, bks []string) {
 		n := len(storelib.Actions(mk()))
 		for k := 0; k < n; k++ {
 			bk := bks[(i+k)%len(bks)]
-			inAttempt := r.Fork(uint64(50+k)).Chance(0.35) // independent of the backend rotation
+			kind := plantKinds[r.Fork(uint64(50+k)).Intn(len(plantKinds))] // independent of the backend rotation
+			inAttempt := kind != "chan-req" && kind != "utf8-req"
 			if bk == "cosmos-fake" && storelib.Hangs >= 3 {
 				continue
 			}
@@ -132,12 +160,12 @@ func famPlant(e *env, root *core.Rand, nPlans int, bks []string) {
 				rec.Create(other(), other(), "create-other")
 			}
 			give, ref := mk(), mk()
-			where := plant(give, k, inAttempt, true)
-			plant(ref, k, inAttempt, false)
+			where := plantKind(give, k, kind, true)
+			plantKind(ref, k, kind, false)
 			rec.Create(give, ref, "create-planted")
 			// the clean plan with the same ids must now be creatable: nothing of the failed one is left
 			rec.Create(mk(), mk(), "create-clean")
-			e.emit("plant", i, bk, rec, true, map[string]any{"actions": n, "position": k, "where": where, "in_attempt": inAttempt, "via": "create"}, map[string]any{"position": k})
+			e.emit("plant", i, bk, rec, true, map[string]any{"actions": n, "position": k, "where": where, "in_attempt": inAttempt, "planted": kind, "via": "create"}, map[string]any{"position": k})
 			closeVault(b, rec)
 		}
 	}
@@ -154,7 +182,12 @@ func famPlantCosmos(e *env, root *core.Rand, nPlans int) {
 		other := maker(r.Fork(2), 0, 0.1)
 		n := len(storelib.Actions(mk()))
 		for k := 0; k < n; k++ {
-			for _, inAttempt := range []bool{false, true} {
+			kinds := []string{"chan-req", "utf8-req", "utf8-resp"}
+			if k%2 == 1 {
+				kinds = []string{"chan-att", "utf8-req", "utf8-err"}
+			}
+			for _, kind := range kinds {
+				inAttempt := kind != "chan-req" && kind != "utf8-req"
 				if storelib.Hangs >= 3 {
 					return // the hang is recorded in three cases already; each further one costs the deadline
 				}
@@ -165,8 +198,8 @@ func famPlantCosmos(e *env, root *core.Rand, nPlans int) {
 					rec.Create(other(), other(), "create-other")
 				}
 				give, ref := mk(), mk()
-				where := plant(give, k, inAttempt, true)
-				plant(ref, k, inAttempt, false)
+				where := plantKind(give, k, kind, true)
+				plantKind(ref, k, kind, false)
 				rec.Create(give, ref, "create-planted")
 				// orphan items? patch some objects of the plan that must not exist
 				objs := storelib.ObjectsOf(ref)
@@ -178,7 +211,7 @@ func famPlantCosmos(e *env, root *core.Rand, nPlans int) {
 					rec.UpdateSequence(ref.ID, objs.Seqs[len(objs.Seqs)-1].ID, st)
 				}
 				rec.Create(mk(), mk(), "create-clean")
-				e.emit("plantcz", i, "cosmos-fake", rec, true, map[string]any{"actions": n, "position": k, "where": where, "in_attempt": inAttempt, "via": "create"}, map[string]any{"position": k, "in_attempt": inAttempt})
+				e.emit("plantcz", i, "cosmos-fake", rec, true, map[string]any{"actions": n, "position": k, "where": where, "in_attempt": inAttempt, "planted": kind, "via": "create"}, map[string]any{"position": k, "planted": kind})
 				closeVault(b, rec)
 			}
 		}
@@ -204,8 +237,9 @@ func famSubmit(e *env, root *core.Rand, nPlans int, bks []string) {
 			}
 			p := fresh()
 			where := "none"
+			kind := []string{"chan-req", "utf8-req"}[(k+i+2)%2]
 			if k >= 0 {
-				where = plant(p, k, false, true)
+				where = plantKind(p, k, kind, true)
 			}
 			var serr error
 			func() {
@@ -227,7 +261,7 @@ func famSubmit(e *env, root *core.Rand, nPlans int, bks []string) {
 			}
 			rec.IDs = []uuid.UUID{p.ID}
 			rec.Created_(p, serr, "submit", "CCreate")
-			e.emit("submit", i, bk, rec, k >= 0, map[string]any{"actions": n, "position": k, "where": where, "via": "submit"}, map[string]any{"position": k})
+			e.emit("submit", i, bk, rec, k >= 0, map[string]any{"actions": n, "position": k, "where": where, "planted": kind, "via": "submit"}, map[string]any{"position": k})
 			closeVault(b, rec)
 		}
 	}
@@ -346,8 +380,16 @@ func famFault(e *env, root *core.Rand, n int) {
 		other := maker(r.Fork(2), 0, 0.1)
 		rec.IDs = []uuid.UUID{mk().ID, other().ID}
 		rec.Create(other(), other(), "create-other")
-		mode := i % 7
+		mode := i % 8
 		switch mode {
+		case 7: // UpdatePlan whose ITEM patch fails (the plan is not there: 404, not retriable): an error, and the
+			// search partition must be untouched - the search entry is replaced only after the patch succeeded
+			gone := mk()
+			st := storelib.RandState(r.Fork(9))
+			rec.UpdatePlan(gone.ID, storelib.RandReason(r.Fork(10)), st, gone.SubmitTime) // never created
+			rec.Create(mk(), mk(), "create")
+			rec.Delete(gone.ID)
+			rec.UpdatePlan(gone.ID, storelib.RandReason(r.Fork(11)), st, gone.SubmitTime) // deleted
 		case 4: // Delete while every batch on the SEARCH partition is refused: the plan's items go, the search
 			// entry stays - Delete must report an ERROR (success is never reported while a trace remains)
 			rec.Create(mk(), mk(), "create")
@@ -610,7 +652,7 @@ func main() {
 	nDup := flag.Int("dup", 12, "cases")
 	nInter := flag.Int("interleave", 18, "cases")
 	nCollide := flag.Int("collide", 10, "cases")
-	nFault := flag.Int("fault", 14, "cases")
+	nFault := flag.Int("fault", 16, "cases")
 	nBig := flag.Int("bigbatch", 2, "big plans for the cosmosdb batch family (three cases each)")
 	nKill := flag.Int("kill", 0, "cases (thorough)")
 	out := flag.String("out", "-", "output file (JSONL)")
